@@ -195,6 +195,22 @@ var (
 		Text: "effect typing of the code generator: every arm of Compiler.Compile and every compile helper, interpreted abstractly over the operand-stack height (Compile of an expression +1, of a statement 0; each emit with the stack effect of its opcode; element loops times their length; placeholder jumps carry the height of their landing point), raises the height by exactly 1 for an expression node and by 0 for a statement node on every path"}
 	rSTK2 = &Rule{Name: "STK.2", Floor: 40, Fn: ruleSTK2,
 		Text: "the stack-effect table STK.1 uses is the effect of the VM's arms: every arm of the dispatch switch, interpreted over the stack-pointer field, moves it on every completing path by exactly the table's effect in terms of the operand it decoded"}
+	rRET2 = &Rule{Name: "RET.2", Floor: 3, Fn: ruleRET2,
+		Text: "`return` outside a function is rejected: every comparison of SymbolTable.Parent(…) with nil asks with skipBlock = true, and every RET the return arm emits stands behind that test"}
+	rOPT5 = &Rule{Name: "OPT.5", Floor: 1, Fn: ruleOPT5,
+		Text: "every jump's target is entered into the destination set of the dead-code pass: nothing but the dispatch on the opcode stands above the store (no condition on operand or position)"}
+	rSYM3 = &Rule{Name: "SYM.3", Floor: 2, Fn: ruleSYM3,
+		Text: "the name defined by := comes into scope after its right-hand side is compiled, except when the right-hand side is a function literal (flag = comma-ok assertion to *parser.FuncLit, defined once; early Define only under it, late Define only under its negation)"}
+	rDEDUP4 = &Rule{Name: "DEDUP.4", Floor: 1, Fn: ruleDEDUP4,
+		Text: "float constants enter the pool from float literals only (no sign, no NaN), the premise under which keying them by == in RemoveDuplicates merges only indistinguishable constants"}
+	rSING1 = &Rule{Name: "SING.1", Floor: 4, Fn: ruleSING1,
+		Text: "values recognised by identity are never re-made: no composite literal or new() of a type whose package-level singleton (true, false, undefined) is compared with == anywhere in the module, apart from the singleton's own initialiser and the gob.Register prototype"}
+	rPOS2 = &Rule{Name: "POS.2", Floor: 1, Fn: rulePOS2,
+		Text: "files of a file set occupy disjoint position ranges: AddFile advances the set's base by the file's size plus at least one (containment includes the end position)"}
+	rIDX2 = &Rule{Name: "IDX.2", Floor: 20, Fn: ruleIDX2,
+		Text: "implicit panics of the scanner and parser: every index or slice expression of package parser whose bounds check the Go compiler's prove pass cannot eliminate (build with -d=ssa/check_bce; nothing is run) is dominated by a test of that index against len() of that base, or is one of the sites confirmed by reading and tabled with its invariant"}
+	rDEDUP5 = &Rule{Name: "DEDUP.5", Floor: 1, Fn: ruleDEDUP5,
+		Text: "merging constants creates no sharing the program can see: imports of a builtin module are separate objects before de-duplication and one object after it (re-derived; a listed finding)"}
 	rCALL1 = &Rule{Name: "CALL.1", Floor: 1, Fn: ruleCALL1,
 		Text: "the array of variadic arguments that OpCall builds stands on storage made in that arm, never on the slice of a spread operand (SSA value-origin analysis)"}
 	rADPT6 = &Rule{Name: "ADPT.6", Floor: 2, Fn: ruleADPT6,
@@ -216,19 +232,19 @@ func allProperties() []*Property {
 		{ID: "C01",
 			Decided:    "compiler, generic codec, opcode tables and every VM arm agree byte for byte on the instruction format.",
 			NotDecided: "the language semantics themselves (values computed by operators, control flow, scoping, builtins).",
-			Rules:      []*Rule{rCODEC1, rCODEC2, rCODEC3, rCODEC4, rFRESH, rOPARM, rOPDOC, rSEM, rSEM3, rIDX1, rTWIN1, rFAM1, rSYM1, rCALL1, rSTK1, rSTK2}},
+			Rules:      []*Rule{rCODEC1, rCODEC2, rCODEC3, rCODEC4, rFRESH, rOPARM, rOPDOC, rSEM, rSEM3, rIDX1, rTWIN1, rFAM1, rSYM1, rSYM3, rCALL1, rSTK1, rSTK2}},
 		{ID: "C02",
 			Decided:    "instruction format agreement; opcode-class agreement.",
 			NotDecided: "stack balance and jump well-formedness for all compiled programs.",
-			Rules:      []*Rule{rCODEC1, rCODEC2, rCODEC3, rCODEC4, rCODEC5, rJMP1, rJMP2, rJMP3, rSEM3, rSTK1, rSTK2, rRET1, rSCOPE1}},
+			Rules:      []*Rule{rCODEC1, rCODEC2, rCODEC3, rCODEC4, rCODEC5, rJMP1, rJMP2, rJMP3, rSEM3, rSTK1, rSTK2, rRET1, rRET2, rSCOPE1}},
 		{ID: "C03",
 			Decided:    "the optimizer's notion of jump / terminator is the VM's (opcode classes extracted from the VM arms).",
 			NotDecided: "equivalence of optimised and unoptimised code for all programs.",
-			Rules:      []*Rule{rCODEC5, rOPT, rRET1, rJMP3}},
+			Rules:      []*Rule{rCODEC5, rOPT, rOPT5, rRET1, rJMP3}},
 		{ID: "C04",
 			Decided:    "every explicit panic reachable from the scan/parse/compile entry points is recovered in place, proven unreachable from re-checked premises, or a listed finding; scope switches are exhaustive; the globals slot count is checked; compiler scope/loop stacks are balanced on error paths; parser error positions are token/node start positions.",
 			NotDecided: "termination; implicit run-time panics in general (index, nil, slice bounds); that every reported position lies inside the input.",
-			Rules:      []*Rule{rPANIC1, rPANIC2, rPANIC3, rPANIC4, rNILFIELD, rSCOPE1, rJMP2, rNEWPARSER, rPOSARG, rLIT1, rSCAN1, rSCAN2}},
+			Rules:      []*Rule{rPANIC1, rPANIC2, rPANIC3, rPANIC4, rNILFIELD, rSCOPE1, rJMP2, rNEWPARSER, rPOSARG, rLIT1, rSCAN1, rSCAN2, rIDX2}},
 		{ID: "C05",
 			Decided:    "the structure that turns any ordinary panic of the VM goroutine into a returned error, waits for that goroutine, and releases the lock by defer on every exit.",
 			NotDecided: "which run-time faults a script can provoke; faults recover() cannot catch are only partly covered (thorough).",
@@ -252,15 +268,15 @@ func allProperties() []*Property {
 		{ID: "C10",
 			Decided:    "Copy is deep and fresh for every container.",
 			NotDecided: "arithmetic results; NaN/±0 laws as numeric facts.",
-			Rules:      []*Rule{rCMP1, rCMP2, rCMP3, rCMP4, rCMP5, rCMP6, rCONV1, rFALSY1, rCOPY1, rCOPY2, rTWIN1}},
+			Rules:      []*Rule{rCMP1, rCMP2, rCMP3, rCMP4, rCMP5, rCMP6, rCONV1, rFALSY1, rCOPY1, rCOPY2, rTWIN1, rSING1}},
 		{ID: "C15",
 			Decided:    "type-level round trip of FromInterface/ToInterface; typed accessors call the documented conversion; Set/Get/GetAll guards; lock discipline; conversion table agreement.",
 			NotDecided: "the history clause (a variable reads as the last value set) over all call sequences.",
-			Rules:      []*Rule{rXCH, rXCH4, rXCH5, rSYM2, rLOCK, rCONV1, rCLONE1}},
+			Rules:      []*Rule{rXCH, rXCH4, rXCH5, rSYM2, rLOCK, rCONV1, rCLONE1, rSING1}},
 		{ID: "C11",
 			Decided:    "the three variable families' selector-assignment arms are clones; operand decoding of all Local/Free/Global opcodes agrees with the encoder.",
 			NotDecided: "the metamorphic relation itself (needs executing transformed programs).",
-			Rules:      []*Rule{rFAM1, rLOCALTS, rCODEC3, rSYM1, rSYM2, rTAIL}},
+			Rules:      []*Rule{rFAM1, rLOCALTS, rCODEC3, rSYM1, rSYM2, rSYM3, rTAIL}},
 		{ID: "C13",
 			Decided:    "module bodies are compiled against a fresh builtin-only table; the cycle check dominates and walks the import stack; compile-once ordering at the root cache; import = CONST+CALL; exported values pass OpImmutable; file APIs are confined behind the permission flag.",
 			NotDecided: "termination and the exact success condition over all import graphs as a run-time fact.",
@@ -268,7 +284,7 @@ func allProperties() []*Property {
 		{ID: "C14",
 			Decided:    "sentinel and host errors survive to the caller wrapped with %w; every instruction gets a source position keyed by its own offset, kept consistent through the optimizer; call-site ips are saved before frame switches and looked up innermost first.",
 			NotDecided: "that a reported position lies within the failing statement (depends on per-opcode ip bookkeeping and each program's source map).",
-			Rules:      []*Rule{rERR, rPOS1, rOPT, rSEARCH1, rDEDUP1, rRET1, rCOPY2}},
+			Rules:      []*Rule{rERR, rPOS1, rPOS2, rOPT, rSEARCH1, rDEDUP1, rRET1, rCOPY2}},
 		{ID: "C16",
 			Decided:    "the VM's tail-call predicate is exactly 'next is RET or POP;RET'; the reuse path grows no frame and overwrites parameter slots directly; the compiler places RET directly after the documented tail positions.",
 			NotDecided: "that deep recursion terminates with the right value.",
@@ -292,6 +308,6 @@ func allProperties() []*Property {
 		{ID: "C12",
 			Decided:    "constant re-indexing covers exactly the opcodes through which the VM reads the constant pool, with the operand layout of the tables.",
 			NotDecided: "behavioural equality after de-duplication / gob round trip.",
-			Rules:      []*Rule{rCODEC5, rDEDUP1, rDEDUP3, rGOB}},
+			Rules:      []*Rule{rCODEC5, rDEDUP1, rDEDUP3, rDEDUP4, rDEDUP5, rGOB}},
 	}
 }
